@@ -63,7 +63,16 @@ def random_cell(rng, kind=None):
             al, be, ga = ang(), ang(), ang()
             # coincidences between parameters that do not make the cell any more symmetric: two equal angles, two equal lengths,
             # one right angle
-            co = rng.choice(["none", "none", "none", "al=ga", "al=be", "be=ga", "al=90", "ga=90", "a=b", "b=c", "al=ga,a=c"])
+            co = rng.choice(["none", "none", "none", "al=ga", "al=be", "be=ga", "al=90", "ga=90", "a=b", "b=c", "al=ga,a=c", "be~90", "ga~90", "acute"])
+            if co == "be~90":        # an angle a few millionths of a radian away from a right angle is not a right angle
+                be = math.pi / 2 + rng.choice([-1, 1]) * rng.uniform(1e-6, 2e-5)
+            elif co == "ga~90":
+                ga = math.pi / 2 + rng.choice([-1, 1]) * rng.uniform(1e-6, 2e-5)
+            elif co == "acute":      # all three angles of a few degrees (numerically below pi even when expressed in degrees)
+                al, be, ga = sorted((math.radians(rng.uniform(1.2, 3.1)) for _ in range(3)), reverse=True)
+                if not (al < be + ga - math.radians(0.4)):
+                    continue
+                return kind, (L(), L(), L(), al, be, ga)
             if "al=ga" in co:
                 ga = al
             elif co == "al=be":
@@ -186,7 +195,8 @@ def check_cell(uc, prm, tag, rng):
     if not np.allclose(np.asarray(uc.angles, dtype=float), [al, be, ga], rtol=0, atol=1e-7):
         return f"{tag}: reported angles {list(uc.angles)} != {(al, be, ga)}"
     vol = uc.volume()
-    if not (vol > 0 and abs(vol - np.linalg.det(D)) <= 1e-9 * amp * abs(vol) * 10):
+    detD = abs(np.linalg.det(D)) if "left-handed" in tag else np.linalg.det(D)
+    if not (vol > 0 and abs(vol - detD) <= 1e-9 * amp * abs(vol) * 10):
         return f"{tag}: volume() = {vol} but det(direct) = {np.linalg.det(D)}"
     stars = [uc.a_star, uc.b_star, uc.c_star]
     cols = [n(I[:, 0]), n(I[:, 1]), n(I[:, 2])]
@@ -235,7 +245,10 @@ def build_variants(kind, prm):
     v += [("UnitCell(vectors turned 180 deg about x)", lambda: UnitCell(std() @ np.diag([1.0, -1.0, -1.0]))),
           ("UnitCell(vectors turned 180 deg about y)", lambda: UnitCell(std() @ np.diag([-1.0, 1.0, -1.0]))),
           ("UnitCell(vectors turned 180 deg about z)", lambda: UnitCell(std() @ np.diag([-1.0, -1.0, 1.0]))),
-          ("UnitCell(vectors in a general orientation)", lambda: UnitCell(std() @ Q.T))]
+          ("UnitCell(vectors in a general orientation)", lambda: UnitCell(std() @ Q.T)),
+          # a left-handed set of lattice vectors (mirror image / two vectors listed in the other order) spans the same kind of cell
+          ("UnitCell(left-handed vectors: mirrored in z)", lambda: UnitCell(std() @ np.diag([1.0, 1.0, -1.0]))),
+          ("UnitCell(left-handed vectors: general orientation, mirrored)", lambda: UnitCell(std() @ Q.T @ np.diag([-1.0, 1.0, 1.0])))]
 
     def respecified():
         u = UnitCell.cubic(3.0 + a)
